@@ -53,6 +53,15 @@ type sink struct {
 	outcome error
 	calls   int
 	trees   []any
+	// hook, when set, replaces the scripted behaviour (concurrent bursts: the
+	// outcome is decided by the id found inside the received payload).
+	hook func(v any) error
+}
+
+func (s *sink) setHook(h func(v any) error) {
+	s.mu.Lock()
+	s.hook = h
+	s.mu.Unlock()
 }
 
 func (s *sink) reset(outcome error) {
@@ -62,6 +71,12 @@ func (s *sink) reset(outcome error) {
 }
 
 func (s *sink) take(v any) error {
+	s.mu.Lock()
+	h := s.hook
+	s.mu.Unlock()
+	if h != nil {
+		return h(v)
+	}
 	t := pview.Of(v) // rendered inside the call: the payload belongs to the caller afterwards
 	s.mu.Lock()
 	defer s.mu.Unlock()
